@@ -1,5 +1,190 @@
-(* C14 - uv_poll / io watchers.  (statements are being added) *)
-From UV Require Import Lib.Base Model.IoWatch.
-Example C14_model_runs : length (snd (run (fun _ => 5%Z) (fun _ => []) (fun _ => []) (sinit true true) [OOpen 0; OInit 0; ORun])) = 3%nat.
-Proof. vm_compute. reflexivity. Qed.
-Print Assumptions C14_model_runs.
+(* C14 - uv_poll / io watchers.  Only statements, each closed by a lemma proved in
+   Proofs/IoWatchProofs*.v, with Print Assumptions beneath.
+
+   [run fdo pw beh (sinit ring strict) os] is the trace of the script [os] (descriptor
+   operations, uv_poll_init/start/stop/uv_close, uv__io_start/stop/close/feed on bare
+   watchers, uv_run(NOWAIT)) where the k-th open/dup is answered with number [fdo k],
+   the k-th epoll_pwait with [pw k] (ANY list of (descriptor, events)), and the k-th
+   callback performs the operations [beh k] (any operations on any handles, also on
+   the handle being called back and on those later in the same batch).
+   [ring]: with / without the io_uring control ring.  [strict]: which usage discipline
+   the guards of the script language enforce (Model/IoWatch.v, [api]).
+
+   A poll callback event [ECb h status ev req efd rep hfd gs n] carries, besides what
+   the user sees (handle, status, events), ghosts: [req] the mask of the latest
+   successful uv_poll_start of h, [gs] = Some k if h was started when k epoll_pwait
+   calls had been made and has not been stopped since (None: stopped, closed or never
+   started), [efd]/[rep] the entry of the batch being dispatched (descriptor, events as
+   epoll_pwait reported them), [hfd] the descriptor of h, [n] the number of
+   epoll_pwait calls made so far (the batch being dispatched is the n-th). *)
+From UV Require Import Lib.Base Model.IoWatch Proofs.IoWatchProofs Proofs.IoWatchProofsN
+  Proofs.IoWatchProofsK Proofs.IoWatchProofsX.
+Local Open Scope Z_scope.
+
+(* Only requested and reported: every poll callback of every run is made for an
+   entry of the current batch that names the handle's own descriptor, and either
+   reports status 0 with a non-empty set of events, all of them requested, each of
+   them reported by the kernel for that descriptor in this batch (or the kernel
+   reported POLLERR/POLLHUP: the peer hung up), or reports UV_EBADF with no events
+   when the kernel reported POLLERR. *)
+Theorem C14_only_requested_and_reported :
+  forall fdo pw beh os ring strict,
+  Forall (fun e => match e with
+    | ECb h st ev req efd rep hfd gs n =>
+        efd = hfd /\
+        ((st = 0 /\ ev <> m0 /\ mand ev req = ev /\
+          (m_err rep = true \/ m_hup rep = true \/ mand ev rep = ev)) \/
+         (st = UV_EBADF /\ ev = m0 /\ m_err rep = true))
+    | _ => True end)
+    (snd (run fdo pw beh (sinit ring strict) os)).
+Proof.
+  intros. eapply Forall_impl; [|apply (callbacks_ok fdo pw beh os ring strict)].
+  intros e H. destruct e; auto. destruct H as [_ [H1 H2]]. split; auto.
+Qed.
+Print Assumptions C14_only_requested_and_reported.
+
+(* None after stop: a poll callback is made only for a handle that is started (a
+   uv_poll_start succeeded and neither uv_poll_stop, uv_close nor an UV_EBADF stop
+   happened since) and whose start precedes the epoll_pwait call that fetched the
+   batch: events already in the batch when the handle is stopped, closed or
+   restarted are dropped, and a handle started inside the batch - also a new handle
+   on a re-used descriptor number - gets nothing from it. *)
+Theorem C14_none_after_stop :
+  forall fdo pw beh os ring strict,
+  Forall (fun e => match e with
+    | ECb h st ev req efd rep hfd gs n => exists k, gs = Some k /\ (k < n)%nat
+    | _ => True end)
+    (snd (run fdo pw beh (sinit ring strict) os)).
+Proof.
+  intros. eapply Forall_impl; [|apply (callbacks_ok fdo pw beh os ring strict)].
+  intros e H. destruct e; auto. destruct H as [H _]. exact H.
+Qed.
+Print Assumptions C14_none_after_stop.
+
+(* ... where the ghost means what it says: uv_poll_stop (hence uv_close, and the
+   stop that uv_poll_start begins with) sets it to None in every reachable state,
+   and only a successful uv_poll_start with a non-empty mask sets it, to the
+   current number of epoll_pwait calls and the requested mask. *)
+Theorem C14_ghost_stop :
+  forall s i, NI s -> (i < length (hs s))%nat -> g_start (hget (poll_stop s i) i) = None.
+Proof. exact ghost_after_stop. Qed.
+Print Assumptions C14_ghost_stop.
+
+Theorem C14_ghost_start :
+  forall s i m s', NI s -> (i < length (hs s))%nat -> poll_start s i m = (s', 0) -> mzero m = false ->
+  g_start (hget s' i) = Some (npw s) /\ g_req (hget s' i) = mand m ALLEV.
+Proof. exact ghost_after_start. Qed.
+Print Assumptions C14_ghost_start.
+
+Theorem C14_invariant_reachable :
+  forall fdo pw beh os ring strict, NI (fst (run fdo pw beh (sinit ring strict) os)).
+Proof.
+  intros. destruct (run fdo pw beh (sinit ring strict) os) as [s' evs] eqn:H.
+  eapply run_NI in H; [|apply NI_init]. apply H.
+Qed.
+Print Assumptions C14_invariant_reachable.
+
+(* Kernel in sync at block.  Full statement: whenever epoll_pwait is called, every
+   descriptor in libuv's registry is in the kernel's interest set under its current
+   open file with exactly the requested mask, and every kernel registration belongs
+   to the current open file of the descriptor of a handle that has not been closed
+   (none is left from a closed handle, also when its open file lives on in a dup). *)
+Definition C14_in_sync (s : state) : Prop :=
+  (forall fd i, reg s fd = Some i ->
+     exists o, fdt s fd = Some o /\ ep s fd o = Some (h_pev (hget s i))) /\
+  (forall fd o m, ep s fd o = Some m ->
+     fdt s fd = Some o /\
+     exists i, (i < length (hs s))%nat /\ h_closed (hget s i) = false /\ h_fd (hget s i) = fd).
+
+(* It does not hold of the current code for every script the documented rules of
+   uv_poll allow ([strict] = false: a descriptor may be closed as soon as no active
+   handle polls it; several poll handles may be initialised on one descriptor) ... *)
+Theorem C14_kernel_in_sync_at_block_refuted :
+  exists fdo pw beh os ring,
+  ~ Forall (fun e => match e with EPwait s _ => C14_in_sync s | _ => True end)
+           (snd (run fdo pw beh (sinit ring false) os)).
+Proof.
+  destruct sync_refuted_shared as [fdo [pw [beh [os [rng H]]]]]. exists fdo, pw, beh, os, rng.
+  intros X. apply H. eapply Forall_impl; [|exact X]. intros e He. destruct e; auto.
+  destruct He as [A B]. split; auto. intros fd o m Hm. destruct (B _ _ _ Hm) as [F [i [G1 [G2 G3]]]].
+  split; auto. exists i. split; auto. split; auto.
+Qed.
+Print Assumptions C14_kernel_in_sync_at_block_refuted.
+
+(* ... nor when the descriptor of a handle that libuv stopped with UV_EBADF is
+   closed before the handle (second, independent witness) ... *)
+Theorem C14_kernel_in_sync_at_block_refuted_ebadf :
+  exists fdo pw beh os ring,
+  ~ Forall (fun e => match e with EPwait s _ => C14_in_sync s | _ => True end)
+           (snd (run fdo pw beh (sinit ring false) os)).
+Proof.
+  destruct sync_refuted_ebadf as [fdo [pw [beh [os [rng H]]]]]. exists fdo, pw, beh, os, rng.
+  intros X. apply H. eapply Forall_impl; [|exact X]. intros e He. destruct e; auto.
+  destruct He as [A B]. split; auto. intros fd o m Hm. destruct (B _ _ _ Hm) as [F [i [G1 [G2 G3]]]].
+  split; auto. exists i. split; auto. split; auto.
+Qed.
+Print Assumptions C14_kernel_in_sync_at_block_refuted_ebadf.
+
+(* ... and holds, with and without the control ring, for every script that keeps to:
+   at most one handle that is not closed per descriptor number, and a descriptor is
+   closed only after the handles on it ([strict] = true); close + re-open with the
+   same number, dups kept open elsewhere, operations from callbacks, any oracle. *)
+Theorem C14_kernel_in_sync_at_block_partial :
+  forall fdo pw beh os ring,
+  Forall (fun e => match e with EPwait s _ => C14_in_sync s | _ => True end)
+         (snd (run fdo pw beh (sinit ring true) os)).
+Proof.
+  intros. eapply Forall_impl; [|apply (kernel_in_sync fdo pw beh os ring)].
+  intros e He. destruct e; auto. destruct He as [A B]. split; auto.
+  intros fd o m Hm. destruct (B _ _ _ Hm) as [F [i [[G1 G2] G3]]]. split; auto. exists i. auto.
+Qed.
+Print Assumptions C14_kernel_in_sync_at_block_partial.
+
+(* under that discipline no abort() of the registration protocol is reachable *)
+Theorem C14_no_abort :
+  forall fdo pw beh os ring, aborted (fst (run fdo pw beh (sinit ring true) os)) = false.
+Proof.
+  intros. destruct (run fdo pw beh (sinit ring true) os) as [s' evs] eqn:H.
+  eapply run_KI in H; [|apply KI_init]. destruct H as [K _]. apply (k_abort _ K).
+Qed.
+Print Assumptions C14_no_abort.
+
+(* Keeps firing (level-triggered): an entry of the batch that has not been
+   invalidated, names a descriptor with a poll watcher and reports a requested event
+   or POLLERR/POLLHUP always reaches the user's callback - in every state, hence in
+   every poll phase as long as the oracle keeps reporting it ... *)
+Theorem C14_keeps_firing :
+  forall fdo beh s fd orig rep i s' evs,
+  dispatch_one fdo beh s (fd, orig, rep) = (s', evs) ->
+  fd <> -1 -> reg s fd = Some i -> h_kind (hget s i) = KPoll ->
+  mzero (mand rep (mor (h_pev (hget s i)) ERRHUP)) = false ->
+  exists st ev req efd r hfd gs n tl, evs = ECb i st ev req efd r hfd gs n :: tl.
+Proof.
+  intros. eapply dispatch_fires; eauto. unfold hits. rewrite H3. reflexivity.
+Qed.
+Print Assumptions C14_keeps_firing.
+
+(* ... in particular the poll phase of uv_run calls back the handle whose descriptor
+   heads the answer of epoll_pwait, whatever happened before. *)
+Theorem C14_keeps_firing_poll_phase :
+  forall fdo pw beh s fd rep rest i s' evs,
+  io_poll fdo pw beh s = (s', evs) -> aborted (poll_prepare s) = false ->
+  pw (npw (poll_prepare s)) = (fd, rep) :: rest -> fd <> -1 ->
+  reg (poll_prepare s) fd = Some i -> h_kind (hget (poll_prepare s) i) = KPoll ->
+  mzero (mand rep (mor (h_pev (hget (poll_prepare s) i)) ERRHUP)) = false ->
+  exists a st ev req efd r hfd gs n tl,
+    evs = EPwait (poll_prepare s) a :: ECb i st ev req efd r hfd gs n :: tl.
+Proof.
+  intros. eapply poll_phase_fires; eauto. unfold hits. rewrite H5. reflexivity.
+Qed.
+Print Assumptions C14_keeps_firing_poll_phase.
+
+(* the statements are not vacuous: a run with a started handle, a kernel
+   registration with the requested mask at the second epoll_pwait, and callbacks *)
+Example C14_nonvacuous :
+  let evs := snd (run (fun _ => 5) (fun _ => [(5, ONLY_IN)]) (fun _ => [])
+                      (sinit true true) [OOpen 0; OInit 0; OStart 0 (UVM true true); ORun; ORun]) in
+  probe_watched evs 1 5 = Some (Some (UVM true true), UVM true true) /\
+  length (filter (fun e => match e with ECb _ _ _ _ _ _ _ _ _ => true | _ => false end) evs) = 2%nat.
+Proof. vm_compute. split; reflexivity. Qed.
+Print Assumptions C14_nonvacuous.
